@@ -196,6 +196,7 @@ pub struct RestoreOutcome {
     pub panicked: Option<String>,
     pub tree: Tree,
     pub describe: String,
+    pub errors: Vec<String>,
 }
 
 pub fn restore_outcome(dir: &Path, band: u32, scratch: &Scratch) -> RestoreOutcome {
@@ -209,6 +210,7 @@ pub fn restore_outcome(dir: &Path, band: u32, scratch: &Scratch) -> RestoreOutco
         panicked: o.panicked.clone(),
         tree,
         describe: o.describe(),
+        errors: o.monitor_errors.clone(),
     }
 }
 
@@ -287,7 +289,7 @@ pub fn c09_case(a: &DamageArchive, base: &Baseline, file: &str, dmg: &Damage, sc
     let mut changed = Vec::new();
     for (b, before) in &base.restores {
         let after = restore_outcome(&dir, *b, scratch);
-        if after.ok != before.ok || after.clean != before.clean || after.tree != before.tree {
+        if after.ok != before.ok || after.clean != before.clean || after.tree != before.tree || after.errors.len() != before.errors.len() {
             changed.push((*b, after.describe.clone()));
         }
     }
@@ -496,6 +498,23 @@ pub fn c10_case(a: &DamageArchive, base: &Baseline, file: &str, dmg: &Damage, sr
                         }
                     }
                 });
+                // A damaged block: the files it holds are known, so each one that comes out absent
+                // or altered must be reported itself (one report for another file of the same
+                // block does not cover it).
+                if block_bad && got != Some(want) && e.kind == "File" {
+                    let named = ro.errors.iter().any(|m| m.contains(&format!(" for {}:", e.apath)) || m.contains(&format!("{:?}", e.apath)));
+                    if !named {
+                        v.push(Violation::new(
+                            format!("C10:altered-file-not-reported:{site}"),
+                            format!(
+                                "{at}: b{b:04} {} is {} in the restore and no reported error names it (errors: {:?})",
+                                e.apath,
+                                if got.is_none() { "absent" } else { "different" },
+                                ro.errors.iter().map(|m| m.chars().take(90).collect::<String>()).collect::<Vec<_>>()
+                            ),
+                        ));
+                    }
+                }
                 if (hunk_bad || block_bad) && got != Some(want) && ro.clean && !yields_legal_state(a, file, dmg) {
                     v.push(Violation::new(
                         format!("C10:lost-file-not-reported:{site}"),
